@@ -111,6 +111,13 @@ static std::string do_writefile(std::istringstream& is) {
     if (!f.is_open()) return "writefile notopen";
     while (i < toks.size()) {
         if (toks[i] == ";;") { i++; continue; }
+        if (toks[i][0] == '@') {    // pseudo-objects: API calls in the middle of the session
+            const std::string& t = toks[i]; i++;
+            if (t == "@z") usleep(300000);
+            else if (t.rfind("@cs=", 0) == 0) f.setDefaultLogContainerSize(uint32_t(strtoul(t.c_str() + 4, nullptr, 10)));
+            else if (t.rfind("@level=", 0) == 0) f.compressionLevel = atoi(t.c_str() + 7);
+            continue;
+        }
         const ClassReflect* c = find_class(toks[i]); i++;
         if (!c) { while (i < toks.size() && toks[i] != ";;") i++; continue; }
         ObjectHeaderBase* o = c->make();
